@@ -48,7 +48,7 @@ def gen(rng, tier):
             for kind in FAULTS:
                 for blocked in (False, True):
                     for codec in (('latin_1', 'cp500') if tier != 'quick' or (n + k) % 2 else ('latin_1',) if k % 2 else ('cp500',)):
-                        good = [iu.ref_wire(iu.rand_message(rng, pk, codec, nbits=rng.choice([1, 3, 7])), pk, codec, False) for _ in range(n)]
+                        good = [iu.ref_wire(iu.rand_message_fit(rng, pk, codec, nbits=rng.choice([1, 3, 7])), pk, codec, False) for _ in range(n)]
                         if kind == 'truncated' and len(cases) % 2:
                             # the record that will be cut short ends in a run of 0x40 (EBCDIC blanks / '@'): what can be read
                             # of it then ends in the very bytes a block trailer consists of
@@ -66,7 +66,7 @@ def gen(rng, tier):
             if rng.random() < 0.45:
                 slots.append(['bad', rng.choice([k for k in FAULTS if k not in ('truncated', 'oversize')])])
             else:
-                slots.append(['good', iu.ref_wire(iu.rand_message(rng, pk, codec, nbits=rng.choice([1, 3, 7])), pk, codec, False).hex()])
+                slots.append(['good', iu.ref_wire(iu.rand_message_fit(rng, pk, codec, nbits=rng.choice([1, 3, 7])), pk, codec, False).hex()])
         if not any(sl[0] == 'bad' for sl in slots):
             slots[rng.randrange(n)] = ['bad', 'bit']
         cases.append({'style': 'resilient', 'codec': codec, 'blocked': rng.random() < 0.5, 'slots': slots,
